@@ -1,0 +1,30 @@
+//go:build verif
+
+package agent
+
+import (
+	"context"
+	"io"
+
+	"github.com/postalsys/muti-metroo/internal/crypto"
+	"github.com/postalsys/muti-metroo/internal/identity"
+	"github.com/postalsys/muti-metroo/internal/peer"
+	"github.com/postalsys/muti-metroo/internal/shell"
+)
+
+// Accessors for the verification harness (tunnel family: C04, C07). They add
+// no behaviour; they only expose unexported wiring so that real agents can be
+// connected through a harness-implemented in-memory transport and so that the
+// unexported file streaming loop can be driven with exact read sizes.
+
+// VerifPeerManager exposes the agent's peer manager (Accept and
+// ConnectWithTransport are public methods of peer.Manager).
+func (a *Agent) VerifPeerManager() *peer.Manager { return a.peerMgr }
+
+// VerifShellHandler exposes the shell handler of this agent.
+func (a *Agent) VerifShellHandler() *shell.Handler { return a.shellHandler }
+
+// VerifStreamFileContent calls the unexported streamFileContent.
+func (a *Agent) VerifStreamFileContent(ctx context.Context, peerID identity.AgentID, streamID uint64, r io.Reader, totalSize int64, sessionKey *crypto.SessionKey) (int64, error) {
+	return a.streamFileContent(ctx, peerID, streamID, r, totalSize, nil, sessionKey)
+}
